@@ -37,10 +37,7 @@ def lit(c):
     """Text of a non-negative float literal accepted by the lexer and equal to repr()."""
     c = float(c)
     assert c >= 0 and c == c and c != float("inf")
-    s = repr(c)
-    if "e" in s or "E" in s:
-        s = "%.1f" % c
-    return s
+    return repr(c)          # '0.5', '2.0000001', '1e-07', '1.5e+16': all RealLiterals of the lexer grammar
 
 
 def to_text(f, bound=lambda a: str(a)):
